@@ -278,6 +278,21 @@ def confirmations():
                 changed.append(dict(configuration=keys, problem="the same call gives different text after a call with another size"))
         res.append(ob("frame/convert() leaves its option objects unchanged", not changed, "compiler_configs equal before and after; call 1 == call 3", changed[:2] or "unchanged",
                       bounded="three configurations x three calls sharing one CompilerConfigs object"))
+        # equal option values give equal text: the order in which a configuration mapping lists its keys is not part of its value
+        import itertools
+        src = '10 DIM A$,B$,C$(3),N$(2),D$\n20 B$="x":E$="y":F$(1)=B$\n'
+        sizes = {"A$": 10, "B$": 20, "N$()": 40, "D$": 10, "E$": 7, "F$()": 9}
+        outs = {}
+        for perm in itertools.permutations(sorted(sizes), 3):
+            for rest in (sorted(set(sizes) - set(perm)), sorted(set(sizes) - set(perm), reverse=True)):
+                order = list(perm) + rest
+                cfg = CompilerConfigs(string_configs=StringConfigs(strname_to_size={k: sizes[k] for k in order}))
+                for init in (False, True):
+                    outs.setdefault((init, convert(src, default_str_storage=80, compiler_configs=cfg, add_standard_prefix=False, initialize_vars=init)), []).append(order)
+        bykind = {init: [o for (i, o) in outs if i == init] for init in (False, True)}
+        ok = all(len(v) == 1 for v in bykind.values())
+        res.append(ob("confirm/equal option values listed in another key order give the same text", ok, "1 distinct output per option set", {k: len(v) for k, v in bykind.items()} if not ok else "1 each over %d key orders" % (len(outs[next(iter(outs))])),
+                      src, bounded="240 key orders of one six-entry mapping x initialize_vars"))
         res.append(ob("confirm/A,B,A in one process", a1 == a2, "first and third outputs identical", "identical" if a1 == a2 else "%d vs %d bytes" % (len(a1), len(a2)), bounded="one sequence of conversions"))
         return res
     return guarded("confirm", run)
